@@ -76,3 +76,50 @@ def all_schedules(threads_ops):
                 for tail in rec(rem2):
                     yield [t] + tail
     return rec(list(threads_ops))
+
+
+class ConcurrentPart:
+    """a correspondence part for runner.run_coexec: small programs of threads (each thread works through its own CLONE of the mock) on the
+    real runtime under the controlled scheduler, every interleaving of the atomic operations (two spare steps per thread so that operations the
+    model does not have are interleaved too), against the Layer B model; compared on every call's outcome and the verdict"""
+    def __init__(self, prop, programs, what, cap_quick=250, cap_thorough=1500):
+        self.prop, self.programs, self.what = prop, programs, what
+        self.cap = {"quick": cap_quick, "thorough": cap_thorough}
+
+    def __call__(self, rng, tier, seed, cases):
+        eng = SchedEngine()
+        eng.build()
+        progs = self.programs(rng, tier)
+        base = eng.model(progs)
+        ccases = []
+        for c, obs in zip(progs, base):
+            counts = [0] * len(c["threads"])
+            for l in obs:
+                if l.startswith("t") and " " in l and l[1:l.index(" ")].isdigit():
+                    counts[int(l[1:l.index(" ")])] += 1
+            scheds = list(all_schedules([min(n + 2, 7) for n in counts]))
+            cap = max(20, self.cap[tier] // max(1, len(progs)))
+            if len(scheds) > cap:
+                scheds = rng.sample(scheds, cap)
+            ccases += [dict(c, sched=s) for s in scheds]
+        impl, model = eng.both(ccases)
+        bad = [i for i in range(len(ccases)) if results_only(project(impl[i])) != results_only(project(model[i]))]
+        cov = {"concurrent_part": {"evaluations": len(ccases), "programs": len(progs), "rule": ConcurrentPart.__doc__}}
+        if not bad:
+            return len(ccases), None, cov
+        i = min(bad, key=lambda k: (sum(len(t) for t in ccases[k]["threads"]), len(ccases[k]["sched"])))
+        payload = {"property": self.prop, "seed": seed, "part": "sched", "theorem_or_correspondence": self.what,
+                   "case": ccases[i], "harness_line": harness_line(ccases[i], "replay"), "coq_case": coq_case(ccases[i]),
+                   "expected_by_model": model[i], "observed_on_implementation": impl[i], "disagreeing_cases_in_run": len(bad),
+                   "replay_cmd": f"./check {self.prop} --replay <this file>"}
+        return len(ccases), payload, cov
+
+
+def replay_sched(prop, payload, path):
+    eng = SchedEngine()
+    eng.build()
+    impl, model = eng.both([payload["case"]])
+    print("model:", model[0]); print("impl :", impl[0])
+    if results_only(project(impl[0])) != results_only(project(model[0])):
+        C.violation(prop, path); return 1
+    print("agree"); return 0
